@@ -192,7 +192,18 @@ func judgeC10(sc Scenario) (key, msg string, nontrivial bool) {
 					}
 					status = "unreg"
 				case "cancel":
-					if status == "reg" {
+					// a cancel revokes trust. If no connection to Y existed, or the request was
+					// pending (waiting for this user), nothing can complete afterwards: as good as
+					// an unregister. In every other state (handshake in progress or completed) the
+					// statement does not say what a cancel means: intent unknown.
+					switch {
+					case o.StateBefore == -1 || o.StateBefore == 11:
+						if status != "unreg" {
+							ivs[len(ivs)-1].to = o.End
+							nontrivial = true
+						}
+						status = "unreg"
+					case status == "reg":
 						status = "unknown"
 						nontrivial = true
 					}
@@ -344,13 +355,21 @@ func runHubProperty(t *testing.T, prop string, gen func(*rapid.T) Scenario, judg
 			}
 			st.Case(scs[i], o.nt, cls...)
 			if o.key != "" {
+				// real time: the schedule of a failing scenario cannot be replayed, only its
+				// script. A failure counts as a violation if it shows again in one of three
+				// re-executions; otherwise it is recorded as unreproduced (no verdict).
 				rep := 0
-				for n := 0; n < 2; n++ {
+				for n := 0; n < 3; n++ {
 					if k, _, _ := judge(scs[i]); k == o.key {
 						rep++
 					}
 				}
-				msg := fmt.Sprintf("%s (reproduced in %d of 2 re-executions of the same script)", o.msg, rep)
+				if rep == 0 {
+					st.AddForeign("unreproduced:" + o.key)
+					st.Note = "unreproduced failure: " + o.msg
+					continue
+				}
+				msg := fmt.Sprintf("%s (reproduced in %d of 3 re-executions of the same script)", o.msg, rep)
 				st.Fail(o.key, msg, scs[i])
 				rt.Fatalf("%s: %s", o.key, msg)
 			}
